@@ -29,15 +29,15 @@ TEXT = {
 TEXT.update({
     "C08": ("get_sub_iovs_offset, Endpoint::send_iovec_all and Endpoint::recv_into_iovec_all are verified in Verus for EVERY iovec list, every length and every chunking the socket primitive may choose (loop invariants, no bound): the wire carries exactly a prefix of hdr|body|payload, each byte once and in order, the descriptors go with the first byte only; the k-th stream byte is stored at the k-th address of the caller's buffers and the descriptors returned are those of the first chunk. Header/body/payload receivers classify every short read (Kani, complete: clean disconnect only at a boundary, PartialMessage inside, never a value from a short read); recv_data, recv_into_iovec_all and send_iovec_all return a short count only at end of stream / after the socket accepted nothing, never surface a retry-class error (errno classification verified against the property's table) and terminate (measure: bytes left, then remaining retry answers; recv_data: bytes left) - Verus, unbounded; recv_data cross-checked on the real code (Kani, bounded length); send_message* hand exactly hdr|body|payload and the caller's descriptors to send_iovec_all once (Kani).",
             "One sendmsg/recvmsg (send_iovec / recv_into_iovec) is the assumed boundary (A-OS); the iterator/concat expressions of the two loops are replaced by environment functions (R19) whose meaning is cross-checked on the un-rewritten code by the bounded Kani chunking harnesses (thorough tier); 'without blocking forever': the three loops carry a decreases clause under A-RETRY-FINITE (the socket answers retry finitely often) and with every single sendmsg/recvmsg returning (a blocking socket whose live peer never sends is outside the model)."),
-    "C11": ("Registration invariant (kick descriptor registered with the ring's rank on the owning worker iff started and enabled, nothing else registered) and the transition table are proved for each control message from an ARBITRARY ring state on the real VhostUserHandler / VringState / Queue code (Kani); the worker's dispatch rule (backend entered iff read_kick reports enabled) likewise.",
-            "epoll level-triggering and 'closing a descriptor removes its registration' are assumed (A-EPOLL); one ring / one worker per harness; thread interleavings are C12 (not applicable)."),
+    "C11": ("Registration invariant (kick descriptor registered with the ring's rank on the owning worker iff started and enabled, nothing else registered) and the transition table are proved for each control message from an ARBITRARY ring state on the real VhostUserHandler / VringState / Queue code (Kani; one ring in the quick tier, two rings with the frame on the other ring and 'reaches every ring' for SET_FEATURES / RESET_DEVICE in the thorough tier); the worker's dispatch rule (backend entered iff read_kick reports enabled; Kani) and its epoll loop (every returned event with known bits dispatched exactly once, in order; Verus, unbounded).",
+            "epoll level-triggering and 'the registration of a received eventfd survives the daemon's close' are assumed (A-EPOLL); thread interleavings are C12 (not applicable)."),
     "C13": ("vmm_va_to_gpa: first containing region, gpa_base + (va - user_base), rejected iff none contains it, no overflow under the table invariant (Verus, all tables); SET_MEM_TABLE / ADD_MEM_REG / REM_MEM_REG and the shared replace_memory helper: resulting memory view (region j = message region j backed by descriptor j at its mmap_offset), mapping table, exactly one backend notification per successful change, and on every failure path memory view and table unchanged (Verus against the documented vm-memory contracts, all region counts).",
             "vm-memory (mmap, GuestMemoryMmap::from_regions / insert_region / remove_region, GuestMemoryAtomic) is modelled by its documented effect on a ghost region list (A-VMM): 'each byte backed by the file' is that model, not a proof about mmap. The defect found here (memory replaced before a refusable update_memory) is repaired by fix 8bb36c0."),
     "C14": ("Real handler + real virtio-queue Queue (Kani): SET_VRING_NUM range and effect, SET_VRING_BASE / GET_VRING_BASE next-avail round trip, SET_FEATURES subset rule and EVENT_IDX / acked bits reaching every queue and the backend, out-of-range index rejected by every per-ring message, signal_used_queue uses the latest call descriptor; SET_VRING_ADDR argument routing and translation and set_backend_req_fd flag inheritance (Verus); 161 adapter methods are pure delegations (scan).",
             "Queue::set_size silently ignores non powers of two (outside the property's accepted sizes); the SET_VRING_ADDR call order is a scan obligation."),
-    "C15": ("AtomicBitmapMmap::new accepts exactly when the log covers the region's last page; mark_dirty performs exactly the writes (byte page/8, bit page%8 of the absolute page) for every offset/length with every index inside the mapping (Verus, unbounded); bit-exact effect on a real in-memory log for all layouts of a 32-page log (Kani, bounded); slices compose offsets; replace installs the new log; logging stays in force across memory-table changes (Verus clause on set_mem_table / add_mem_region: FAILS - known findings).",
-            "Atomicity rests on fetch_or being the only write to the log (scan) + A-ATOMIC; two known findings (regions added / tables installed after SET_LOG_BASE are not logged)."),
-    "C16": ("Sequential fragment only: wait()'s join-result classification uses the shutdown flag as read AFTER the join, connection state reset on every path; serve() raises the exit events exactly once and maps clean/partial disconnects to success (Verus); shutdown stores the flag before shutting the socket down, Drop and the daemon thread shut both directions (scan).",
+    "C15": ("AtomicBitmapMmap::new accepts exactly when the log covers the region's last page; mark_dirty performs exactly the writes (byte page/8, bit page%8 of the absolute page) for every offset/length with every index inside the mapping; BitmapMmapRegion::mark_dirty logs a write at `offset` of a slice as a write at base_address + offset of the region, slice_at adds offsets and shares the inner bitmap, replace installs the new log; handler set_log_base installs the log in EVERY region or, when refused, in none (Verus, unbounded) - plus bit-exact effect on a real in-memory log for all layouts of a 32-page log (Kani, bounded). Logging stays in force across memory-table changes: Verus clause on set_mem_table / add_mem_region FAILS (two known findings).",
+            "Atomicity rests on fetch_or being the only write to the log (scan) + A-ATOMIC; sharing of the inner bitmap between slices is A-CLONE; two known findings (regions added / tables installed after SET_LOG_BASE are not logged)."),
+    "C16": ("Sequential fragment only: wait()'s join-result classification uses the shutdown flag as read AFTER the join, connection state reset on every path; serve() raises the exit events exactly once whatever wait() returns and maps clean/partial disconnects to success; the worker's epoll loop returns only after the exit event was dispatched; the request body read ends at end of stream (the daemon thread cannot spin after the peer closed inside a body) (Verus); shutdown stores the flag before shutting the socket down, Drop and the daemon thread shut both directions, serve()'s exit-event statement is unconditional (scan).",
             "Every timing clause of the property (position of the shutdown request relative to the daemon thread, bounded time, peer observing EOF) is schedules x crash points and is NOT decided."),
     "C17": ("For EVERY queues-per-thread configuration (any number of workers, any 64-bit masks, up to 64 queues; Verus, unbounded): VhostUserHandler::new gives worker t the thread id t and the rings of mask t in increasing queue order; update_vring_registration talks only to the FIRST worker whose mask contains the queue, with event id popcount(mask) - popcount(mask >> q) = number of the mask's queues below q; lemma: slice[event id] is queue q, and the owner is unique. Real-code Kani: the worker's dispatch (backend entered with the registered id, the thread id and its slice), custom listener ids (reserved range refused, accepted ids delivered unchanged by the 16-bit dispatch, never a ring rank or the exit id; all u64 ids), registration on the real handler (bounded: 3 queues, masks < 8).",
             "Assumed: u64::count_ones is the population count (A-POPCNT), Arc / thread spawn / epoll_ctl are opaque (R23, argument contracts); more than 64 queues overflow `mask >> index` (A-NQ64, precondition)."),
